@@ -5,6 +5,7 @@
 -/
 import Gp.Model.AsmSpec
 import Gp.Lemmas.AsmBasic
+import Gp.Lemmas.AsmLog
 
 namespace Gp.Asm
 
@@ -294,5 +295,300 @@ theorem skipFlush_flat (S : Bytes) (c : Conn) (used : Int) (pos : Option Nat) (h
       (used - 1) (popPage flatArith c.nextSeq p).1 [] pos (some p1)
       ⟨i2, i3, fun q hq => h3 q (List.mem_cons_of_mem _ hq)⟩ (replay_single S _ _ _ i1)
     exact ⟨pos', r1, r2⟩
+
+/-! ### pagesFromTCP, insertIntoConn, AssembleWithTimestamp in offset space -/
+
+theorem pageOk_mk (S : Bytes) (off : Nat) (b : Bytes) (fin : Bool) (ts : Int)
+    (hb : b = slice S off b.length) (hlen : off + b.length ≤ S.length) :
+    PageOk S ⟨(off : Int) + 1, ⟨b, 0, false, fin, ts⟩⟩ := ⟨off, rfl, hlen, hb, rfl, rfl⟩
+
+theorem take_slice_ok (S : Bytes) (off n : Nat) (b : Bytes) (hb : b = slice S off b.length) :
+    b.take n = slice S off (b.take n).length := by
+  have h : (b.take n).length = min n b.length := by simp
+  rw [h]
+  conv => lhs; rw [hb]
+  exact slice_take S off b.length n
+
+theorem drop_slice_ok (S : Bytes) (off n : Nat) (b : Bytes) (hb : b = slice S off b.length) :
+    b.drop n = slice S (off + n) (b.drop n).length := by
+  have h : (b.drop n).length = b.length - n := by simp
+  rw [h]
+  conv => lhs; rw [hb]
+  exact slice_drop S off b.length n
+
+theorem splitPages_flat (S : Bytes) (fuel : Nat) (off : Nat) (b : Bytes) (fin : Bool) (ts : Int)
+    (hb : b = slice S off b.length) (hlen : off + b.length ≤ S.length) :
+    PagesOk S (splitPages flatArith fuel ((off : Int) + 1) b fin ts) := by
+  induction fuel generalizing off b with
+  | zero =>
+    intro pg hpg
+    simp only [splitPages, List.mem_singleton] at hpg
+    rw [hpg]; exact pageOk_mk S off b fin ts hb hlen
+  | succ f ih =>
+    have hpage : ∀ fl, PageOk S ⟨(off : Int) + 1, ⟨b.take (min b.length pageBytes), 0, false, fl, ts⟩⟩ := by
+      intro fl
+      apply pageOk_mk
+      · exact take_slice_ok S off _ b hb
+      · have : (b.take (min b.length pageBytes)).length ≤ b.length := by
+          simp only [List.length_take]; omega
+        omega
+    simp only [splitPages]
+    split
+    · intro pg hpg
+      simp only [List.mem_singleton] at hpg
+      rw [hpg]; exact hpage fin
+    · intro pg hpg
+      rcases List.mem_cons.1 hpg with hpg | hpg
+      · rw [hpg]; exact hpage false
+      · have hseq : flatArith.add ((off : Int) + 1) ((min b.length pageBytes : Nat) : Int)
+            = ((off + min b.length pageBytes : Nat) : Int) + 1 := by
+          simp only [flat_add]; omega
+        rw [hseq] at hpg
+        refine ih (off + min b.length pageBytes) (b.drop (min b.length pageBytes)) ?_ ?_ pg hpg
+        · exact drop_slice_ok S off _ b hb
+        · have : (b.drop (min b.length pageBytes)).length = b.length - min b.length pageBytes := by simp
+          omega
+
+theorem pagesOk_insertPages (S : Bytes) (A : SeqArith) (seq : Int) (new ps : List Page)
+    (h1 : PagesOk S new) (h2 : PagesOk S ps) : PagesOk S (insertPages A seq new ps) := by
+  intro pg hpg
+  rcases (mem_insertPages A seq new ps pg).1 hpg with h | h
+  · exact h1 pg h
+  · exact h2 pg h
+
+theorem send_flat' (S : Bytes) (c : Conn) (used : Int) (r0 : Reasm) (rs : List Reasm)
+    (pos0 pos1 : Option Nat) (hc : ConnOk S c pos1) (hr : replay S pos0 (r0 :: rs) pos1) :
+    ∃ pos', replay S pos0 (send flatArith c used r0 rs).calls.flatten pos' ∧
+      ConnOk S (send flatArith c used r0 rs).conn pos' := by
+  obtain ⟨pos', h1, h2, _⟩ := send_flat S c used r0 rs pos0 pos1 hc hr
+  exact ⟨pos', h1, h2⟩
+
+/-- insertIntoConn of a consistent payload never panics when the first page is not at nextSeq;
+    the released items continue the stream. -/
+theorem insertIntoConn_flat (S : Bytes) (L : Lim) (c : Conn) (used : Int) (off : Nat) (b : Bytes)
+    (fin : Bool) (ts : Int) (pos : Option Nat) (hc : ConnOk S c pos) (hw : wtfGuard c = false)
+    (hb : b = slice S off b.length) (hlen : off + b.length ≤ S.length) :
+    ∃ st, insertIntoConn flatArith L c used ((off : Int) + 1) b fin ts = .ok st ∧
+      ∃ pos', replay S pos st.calls.flatten pos' ∧ ConnOk S st.conn pos' := by
+  obtain ⟨h1, h2, h3⟩ := hc
+  unfold insertIntoConn
+  simp only [hw, Bool.false_eq_true, if_false]
+  have hnew : PagesOk S (pagesFromTCP flatArith ((off : Int) + 1) b fin ts) :=
+    splitPages_flat S _ off b fin ts hb hlen
+  have hall := pagesOk_insertPages S flatArith ((off : Int) + 1) _ c.pages hnew h3
+  obtain ⟨pos1, r1, r2, r3, r4, r5⟩ := limitPops_flat S L pos _
+    (c.npages + ((pagesFromTCP flatArith ((off : Int) + 1) b fin ts).length : Int))
+    (used + ((pagesFromTCP flatArith ((off : Int) + 1) b fin ts).length : Int)) h2 hall
+  rw [← h1] at r1 r2 r4 r5
+  split
+  · rename_i hnil
+    refine ⟨_, rfl, pos1, ?_, ⟨r2, r3, r4⟩⟩
+    rw [hnil] at r1
+    simpa using r1
+  · rename_i r0 rs hcons
+    rw [hcons] at r1
+    refine ⟨_, rfl, ?_⟩
+    exact send_flat' S _ _ r0 rs pos pos1 ⟨r2, r3, r4⟩ r1
+
+/-- a segment consistent with stream `S` in offset space (SYN at 0, byte j at j+1) -/
+def FlatSegOk (S : Bytes) (s : Seg) : Prop :=
+  if s.syn then s.seq = 0 ∧ s.bytes.length ≤ S.length ∧ s.bytes = slice S 0 s.bytes.length
+  else ∃ off : Nat, s.seq = (off : Int) + 1 ∧ off + s.bytes.length ≤ S.length ∧
+    s.bytes = slice S off s.bytes.length
+
+theorem wtfGuard_of_noWtf (c : Conn) (h : NoWtf c) : wtfGuard c = false := by
+  unfold NoWtf at h
+  unfold wtfGuard
+  cases hp : c.pages with
+  | nil => rfl
+  | cons p ps => rw [hp] at h; simpa [HeadNe] using h
+
+theorem enc_ne_invalid (p : Nat) : enc (some p) ≠ invalidSeq := by
+  simp only [enc, invalidSeq_eq]; omega
+
+/-- payload position of a consistent segment -/
+theorem flatSeg_payload (S : Bytes) (s : Seg) (hs : FlatSegOk S s) :
+    ∃ off : Nat, off + s.bytes.length ≤ S.length ∧ s.bytes = slice S off s.bytes.length ∧
+      (∀ p, payloadSeq flatArith (enc (some p)) s = (off : Int) + 1) ∧
+      (s.syn = false → s.seq = (off : Int) + 1) ∧ (s.syn = true → off = 0 ∧ s.seq = 0) := by
+  unfold FlatSegOk at hs
+  by_cases hsyn : s.syn = true
+  · rw [if_pos hsyn] at hs
+    refine ⟨0, by omega, hs.2.2, ?_, by simp [hsyn], fun _ => ⟨rfl, hs.1⟩⟩
+    intro p
+    unfold payloadSeq
+    rw [if_pos (by simp [hsyn, enc_ne_invalid])]
+    simp [hs.1]
+  · rw [if_neg hsyn] at hs
+    obtain ⟨off, h1, h2, h3⟩ := hs
+    refine ⟨off, h2, h3, ?_, fun _ => h1, fun h => absurd h hsyn⟩
+    intro p
+    unfold payloadSeq
+    rw [if_neg (by simp [hsyn])]
+    exact h1
+
+theorem assembleConn_flat (S : Bytes) (L : Lim) (c : Conn) (used : Int) (s : Seg) (pos : Option Nat)
+    (hc : ConnOk S c pos) (hw : NoWtf c) (hs : FlatSegOk S s) :
+    ∃ st, assembleConn flatArith L c used s = .ok st ∧
+      ∃ pos', replay S pos st.calls.flatten pos' ∧ ConnOk S st.conn pos' := by
+  obtain ⟨off, hlen, hb, hpay, hns, hsy⟩ := flatSeg_payload S s hs
+  unfold assembleConn
+  dsimp only
+  generalize hcc : (if c.lastSeen < s.ts then { c with lastSeen := s.ts } else c) = c1
+  have h1 : c1.nextSeq = c.nextSeq := by rw [← hcc]; split <;> rfl
+  have h2 : c1.pages = c.pages := by rw [← hcc]; split <;> rfl
+  have hc1 : ConnOk S c1 pos := by
+    obtain ⟨a1, a2, a3⟩ := hc
+    exact ⟨by rw [h1]; exact a1, a2, by rw [h2]; exact a3⟩
+  have hw1 : wtfGuard c1 = false := by
+    apply wtfGuard_of_noWtf; unfold NoWtf; rw [h1, h2]; exact hw
+  obtain ⟨e1, e2, e3⟩ := hc1
+  cases pos with
+  | none =>
+    have hinv : c1.nextSeq = invalidSeq := e1
+    rw [if_pos hinv]
+    by_cases hsyn : s.syn = true
+    · rw [if_pos hsyn]
+      obtain ⟨ho, hq⟩ := hsy hsyn
+      subst ho
+      refine ⟨_, rfl, ?_⟩
+      refine send_flat' S _ _ _ [] none (some s.bytes.length) ⟨?_, ?_, e3⟩ ?_
+      · show flatArith.add (payloadSeq flatArith c1.nextSeq s) ((s.bytes.length : Int) + 1) = _
+        rw [hinv, payloadSeq_invalid, hq]
+        simp only [flat_add, enc]; omega
+      · show s.bytes.length ≤ S.length; omega
+      · apply replay_single
+        exact Or.inl ⟨rfl, rfl, by show s.bytes.length ≤ S.length; omega, hb, rfl⟩
+    · rw [if_neg hsyn]
+      have hsf : s.syn = false := by simpa using hsyn
+      rw [hinv, payloadSeq_invalid, hns hsf]
+      exact insertIntoConn_flat S L c1 used off s.bytes _ s.ts none ⟨e1, e2, e3⟩ hw1 hb hlen
+  | some p =>
+    have hinv : ¬ c1.nextSeq = invalidSeq := by rw [e1]; exact enc_ne_invalid p
+    rw [if_neg hinv, e1, hpay p]
+    have henc : enc (some p) = (p : Int) + 1 := rfl
+    rw [henc]
+    by_cases hd : flatArith.diff ((p : Int) + 1) ((off : Int) + 1) > 0
+    · rw [if_pos hd]
+      exact insertIntoConn_flat S L c1 used off s.bytes _ s.ts (some p) ⟨e1, e2, e3⟩ hw1 hb hlen
+    · rw [if_neg hd]
+      have hle : off ≤ p := by simp only [flat_diff] at hd; omega
+      have hx := byteSpan_flat_le S p off s.bytes hb hlen e2 hle
+      simp only [] at hx
+      obtain ⟨hx1, hx2, hx3⟩ := hx
+      refine ⟨_, rfl, ?_⟩
+      refine send_flat' S _ _ _ [] (some p)
+        (some (p + (byteSpan flatArith ((p : Int) + 1) ((off : Int) + 1) s.bytes).1.length)) ⟨?_, hx2, e3⟩ ?_
+      · show (byteSpan flatArith ((p : Int) + 1) ((off : Int) + 1) s.bytes).2 = _
+        exact hx3
+      · apply replay_single
+        refine ⟨rfl, 0, rfl, ?_, ?_, ?_⟩
+        · simpa using hx2
+        · simpa using hx1
+        · simp
+
+/-! ### Flush* in offset space -/
+
+theorem flushLoop_flat (S : Bytes) (T : Int) (fuel : Nat) (c : Conn) (used : Int)
+    (calls : List (List Reasm)) (fl : Bool) (pos0 pos : Option Nat) (hc : ConnOk S c pos)
+    (hr : replay S pos0 calls.flatten pos) :
+    ∃ pos', replay S pos0 (flushLoop flatArith T fuel c used calls fl).1.calls.flatten pos' ∧
+      ConnOk S (flushLoop flatArith T fuel c used calls fl).1.conn pos' := by
+  induction fuel generalizing c used calls fl pos with
+  | zero => exact ⟨pos, hr, hc⟩
+  | succ f ih =>
+    simp only [flushLoop]
+    split
+    · exact ⟨pos, hr, hc⟩
+    · split
+      · obtain ⟨pos1, r1, r2⟩ := skipFlush_flat S c used pos hc
+        have hr' : replay S pos0 (calls ++ (skipFlush flatArith c used).calls).flatten pos1 := by
+          rw [List.flatten_append]; exact replay_append S pos0 pos pos1 _ _ hr r1
+        split
+        · exact ⟨pos1, hr', r2⟩
+        · exact ih _ _ _ _ pos1 r2 hr'
+      · exact ⟨pos, hr, hc⟩
+
+theorem flushConn_flat (S : Bytes) (T : Int) (ca : Bool) (c : Conn) (used : Int) (pos : Option Nat)
+    (hc : ConnOk S c pos) :
+    ∃ pos', replay S pos (flushConn flatArith T ca c used).1.calls.flatten pos' ∧
+      ConnOk S (flushConn flatArith T ca c used).1.conn pos' := by
+  unfold flushConn
+  dsimp only
+  have h := flushLoop_flat S T c.pages.length c used [] false pos pos hc rfl
+  split
+  · exact h
+  · exact h
+
+theorem flushAllLoop_flat (S : Bytes) (fuel : Nat) (c : Conn) (used : Int)
+    (calls : List (List Reasm)) (pos0 pos : Option Nat) (hc : ConnOk S c pos)
+    (hr : replay S pos0 calls.flatten pos) :
+    ∃ pos', replay S pos0 (flushAllLoop flatArith fuel c used calls).calls.flatten pos' ∧
+      ConnOk S (flushAllLoop flatArith fuel c used calls).conn pos' := by
+  induction fuel generalizing c used calls pos with
+  | zero => exact ⟨pos, hr, hc⟩
+  | succ f ih =>
+    simp only [flushAllLoop]
+    obtain ⟨pos1, r1, r2⟩ := skipFlush_flat S c used pos hc
+    have hr' : replay S pos0 (calls ++ (skipFlush flatArith c used).calls).flatten pos1 := by
+      rw [List.flatten_append]; exact replay_append S pos0 pos pos1 _ _ hr r1
+    split
+    · exact ⟨pos1, hr', r2⟩
+    · exact ih _ _ _ pos1 r2 hr'
+
+theorem flushAllConn_flat (S : Bytes) (c : Conn) (used : Int) (pos : Option Nat) (hc : ConnOk S c pos) :
+    ∃ pos', replay S pos (flushAllConn flatArith c used).calls.flatten pos' ∧
+      ConnOk S (flushAllConn flatArith c used).conn pos' :=
+  flushAllLoop_flat S _ c used [] pos pos hc rfl
+
+/-! ### Layer B for whole histories -/
+
+theorem flat_diff_self (x : Int) : flatArith.diff x x ≤ 0 := by simp
+
+/-- invariant of a live connection in offset space, after its stream has received `items` -/
+def FlatR (Sf : Nat → Bytes) (k : Nat) (c : Conn) (items : List Reasm) : Prop :=
+  ∃ pos, replay (Sf k) none items pos ∧ ConnOk (Sf k) c pos ∧ NoWtf c
+
+def FlatD (Sf : Nat → Bytes) (k : Nat) (items : List Reasm) : Prop :=
+  ∃ pos, replay (Sf k) none items pos
+
+theorem flatSeg_seq_ne (S : Bytes) (s : Seg) (h : FlatSegOk S s) : s.seq ≠ invalidSeq := by
+  unfold FlatSegOk at h
+  rw [invalidSeq_eq]
+  split at h
+  · rw [h.1]; omega
+  · obtain ⟨off, h1, _⟩ := h; rw [h1]; omega
+
+theorem flat_streamInv (Sf : Nat → Bytes) :
+    StreamInv flatArith (FlatR Sf) (FlatD Sf) (fun s => FlatSegOk (Sf s.key) s) where
+  dead := by intro k c items ⟨pos, h, _⟩; exact ⟨pos, h⟩
+  nil := by intro k; exact ⟨none, rfl⟩
+  fresh := by
+    intro k ts sid
+    exact ⟨none, rfl, ⟨rfl, trivial, by intro pg h; simp at h⟩, by simp [NoWtf, HeadNe]⟩
+  asm := by
+    intro L c used s items ⟨pos, h1, h2, h3⟩ hs
+    obtain ⟨st, e1, pos', e2, e3⟩ := assembleConn_flat (Sf s.key) L c used s pos h2 h3 hs
+    obtain ⟨st', e1', e4⟩ := assembleConn_noWtf flatArith flat_diff_self L c used s h3
+      (flatSeg_seq_ne _ s hs)
+    rw [e1] at e1'; cases e1'
+    exact ⟨st, e1, pos', replay_append _ _ _ _ _ _ h1 e2, e3, e4⟩
+  flush := by
+    intro k T ca c used items ⟨pos, h1, h2, h3⟩
+    obtain ⟨pos', e2, e3⟩ := flushConn_flat (Sf k) T ca c used pos h2
+    exact ⟨pos', replay_append _ _ _ _ _ _ h1 e2, e3, flushConn_noWtf flatArith flat_diff_self T ca c used h3⟩
+  flushAll := by
+    intro k c used items ⟨pos, h1, h2, h3⟩
+    obtain ⟨pos', e2, e3⟩ := flushAllConn_flat (Sf k) c used pos h2
+    exact ⟨pos', replay_append _ _ _ _ _ _ h1 e2, e3, flushAllLoop_noWtf flatArith flat_diff_self _ c used _ h3⟩
+
+/-- Layer B: every history of consistent segments, in offset space, runs without panic and every
+    stream's items replay against its sender's stream. -/
+theorem flat_sound (Sf : Nat → Bytes) (ops : List Op)
+    (hops : ∀ op ∈ ops, OpPre (fun s => FlatSegOk (Sf s.key) s) op) :
+    ∃ x, run flatArith {} ops = .ok x ∧
+      LogInv (FlatR Sf) (FlatD Sf) x.1 (allEvs x.2) := by
+  obtain ⟨x, h1, h2⟩ := run_logInv (flat_streamInv Sf) {} [] ops (logInv_init (fun k => ⟨none, rfl⟩)) hops
+  exact ⟨x, h1, by simpa using h2⟩
 
 end Gp.Asm
